@@ -31,9 +31,9 @@ CHECKS = {
   note="The oracle is relational (fresh session vs. later position); it assumes the fresh response itself is sane, which the fresh-responses sub-check examines per line class. Lines of 4 KiB - 1 MiB are covered by the long-lines sub-check (a line over 64 KiB used to end the session silently: fixed finding).",
   ref="4 C20"),
  "C15": dict(
-  technique="boundary enumeration + rapid random doubles and strings; oracles: read-back (exact), shortest-digits bound, NFC / canonical-equivalence via x/text/norm, metamorphic relation between দেখাও v, \"\" + v, \"p\" + v and v inside arrays/objects",
+  technique="boundary enumeration + rapid random doubles and strings; oracles: read-back (exact), shortest-digits bound, NFC / canonical-equivalence via x/text/norm and — because the interpreter uses that same library — differentially against Python unicodedata (co-process) and against a library-free canonical ordering for mark runs, metamorphic relation between দেখাও v, \"\" + v, \"p\" + v and v inside arrays/objects",
   text="Each value is printed nine ways (alone, \"\"+v, \"p\"+v, v+\"\", v+\"s\", \"p\"+v+\"s\", [v], {k: v}, nested). Numbers: boundary doubles (+-0, smallest subnormal, 2^53+-1, powers of ten 1e-6..1e23 with both neighbours, 999999/1e6/1e6+1, 1-17 digit runs, non-finite) and random doubles over bit patterns, short decimals and 15-17 digit values; integer-typed bitwise results up to 2^63. The numeral must read back to exactly that double (or be the exact integer), use no more significant digits than the shortest round-trip numeral, be a plain integer below one million; every দেখাও ends in exactly one newline; \"\"+v and \"p\"+v splice character for character what দেখাও prints. Strings: every code point of the Bangla block in four positions, composing sequences, random mixes of Latin/Bangla/marks/spaces/newlines: output must be NFC and canonically equivalent to the source, alone and inside containers. Exploration.",
-  note="Trusted: strconv.ParseFloat/FormatFloat for read-back and shortest digits, x/text/unicode/norm. Spelling of non-finite values and container punctuation are not asserted. Open finding overlong-mark-run (more than 30 combining marks in a row get U+034F inserted by the normalisation library) is excluded by construction and probed on every run; runs of combining marks are judged against an NFC form computed without that library.",
+  note="Trusted: strconv.ParseFloat/FormatFloat for read-back and shortest digits, x/text/unicode/norm. Spelling of non-finite values and container punctuation are not asserted. Open finding vowel-sign-then-composing-mark (the normalisation library composes a mark with a letter across a stand-alone U+09BE / U+09D7) is excluded by construction (strings of that shape are counted and must show exactly the library's form) and probed on every run; the differential sub-check is skipped with a note when no python3 is installed. Open finding overlong-mark-run (more than 30 combining marks in a row get U+034F inserted by the normalisation library) is excluded by construction and probed on every run; runs of combining marks are judged against an NFC form computed without that library.",
   ref="4 C15"),
  "C16": dict(
   technique="purely metamorphic enumeration: context-with-a-hole x value x producer; two programs that differ only in how the same string or number is produced must have identical stdout, outcome class, first diagnostic and line",
